@@ -209,6 +209,10 @@ def build_unit(name):
                     spec["contract"] = shared[a2]
                     spec["contract_file"] = "shared_contracts.vrs"
                     spec["contract_name"] = a2
+                elif d2 == "contract_pre":
+                    # an additional precondition of this unit's PROOF of a shared contract (the assumed contract elsewhere lacks it:
+                    # it is a hypothesis the proof needs, listed in the evidence as an assumption)
+                    spec["contract_pre"] = a2
                 elif d2 == "attr":
                     spec.setdefault("attrs", []).append(a2)
                 elif d2 == "lift":
@@ -234,6 +238,12 @@ def build_unit(name):
                     raise rsx.RsxError("%s.vrs:%d unknown directive //@%s" % (name, i + 1, d2))
                 i += 1
             src = get_src(rel)
+            if spec.get("contract_pre") and spec.get("contract"):
+                ctext, cline = spec["contract"]
+                if not re.search(r"\brequires\b", ctext):
+                    raise rsx.RsxError("%s.vrs: contract_pre on a contract without requires" % name)
+                spec["contract"] = (re.sub(r"\brequires\b", "requires " + spec["contract_pre"] + ",", ctext, count=1), cline)
+                u.notes.append("%s :: %s: extra hypothesis of the proof: %s" % (rel, path[-1], spec["contract_pre"]))
             if wrap:
                 u.lines.append((wrap + " {", ("gen", "wrap", 0)))
             if d == "fn":
